@@ -1,2 +1,3 @@
 //! Reference models (independent executable specifications used as oracles).
+pub mod refinbox;
 pub mod refstate;
